@@ -598,6 +598,11 @@ func (f *memFile) Write(p []byte) (int, error) {
 	if !openedForWriting(f.flag) {
 		return 0, &os.PathError{Op: "write", Path: f.nameSnapshot, Err: os.ErrPermission}
 	}
+	if lenp == 0 {
+		// Like a zero-length write(2), which does not extend the file even
+		// if the offset is past its end.
+		return 0, nil
+	}
 	if f.pos < len(f.n.data) {
 		n := copy(f.n.data[f.pos:], p)
 		f.pos += n
